@@ -21,6 +21,7 @@ Environment:
 import random, os, json, itertools, pickle, multiprocessing as mp
 from fractions import Fraction as F
 from ..common import Result, OUT, scratch, run_tlc, Machinery, tlc_error_excerpt, rat, quiet
+from ..common import fork_pool
 from ..calltrace import judge_calls
 
 PID = "C16"
@@ -654,7 +655,7 @@ def run(tier, seed, replay=None):
                 res.violation("spec:MC_GenDist:%s" % r["violated"], "the specified laws violate %s" % r["violated"], {})
         pts = grid(tier, seed)
     res.evaluations = len(pts)
-    with mp.get_context("fork").Pool(16) as pool:
+    with fork_pool(16) as pool:
         traces = [t for ts in pool.imap_unordered(point_work, pts, chunksize=1) for t in ts]
     traces.sort(key=lambda t: json.dumps({k: v for k, v in t.items() if not k.startswith("_")}, sort_keys=True))
     # cases the explorer could not enumerate completely are not decided
